@@ -41,7 +41,12 @@ where
         .await
         .map_err(|e| Error::ProcessSocksRequest("read user id", e))?;
     // Remove the null byte
-    user_id.pop();
+    if user_id.pop() != Some(0) {
+        return Err(Error::ProcessSocksRequest(
+            "read user id",
+            std::io::ErrorKind::UnexpectedEof.into(),
+        ));
+    }
     let rhost = if ip >> 24 == 0 {
         let mut domain = Vec::new();
         reader
@@ -49,7 +54,12 @@ where
             .await
             .map_err(|e| Error::ProcessSocksRequest("read domain", e))?;
         // Remove the null byte
-        domain.pop();
+        if domain.pop() != Some(0) {
+            return Err(Error::ProcessSocksRequest(
+                "read domain",
+                std::io::ErrorKind::UnexpectedEof.into(),
+            ));
+        }
         domain
     } else {
         Ipv4Addr::from(ip).to_string().into()
